@@ -50,7 +50,7 @@ def gen_program(rng, cluster, n_ops, first=None):
             op = dict(first)
         else:
             r = rng.random()
-            t = rng.choice(_types(cluster))
+            t = rng.choice(_types(cluster)) if rng.random() > 0.07 else rng.choice(["Unsupported", "ListUnsupported", "CallableT"])
             if r < 0.15 and n_callables:
                 c = rng.randrange(n_callables)
                 k, ct = callable_kinds[c]
@@ -97,16 +97,30 @@ def gen_conv_program(rng, n_ops, first=None):
 
 def gen_policy(rng, n_threads):
     r = rng.random()
+    if r < 0.35:
+        return {"kind": "sweep1", "t": rng.randrange(n_threads), "mode": "hot", "frac": rng.random(), "f2": rng.random()}
     if r < 0.50:
-        return {"kind": "sweep1", "t": rng.randrange(n_threads), "frac": rng.random()}
-    if r < 0.75:
+        return {"kind": "sweep1", "t": rng.randrange(n_threads), "mode": "uniform", "frac": rng.random()}
+    if r < 0.80:
         d = rng.choice([2, 3, 4])
         prios = list(range(1, n_threads + 1))
         rng.shuffle(prios)
+        if r < 0.70:
+            return {"kind": "pct", "prios": prios,
+                    "cp_hot": [[rng.randrange(n_threads), rng.random(), rng.random()] for _ in range(d - 1)]}
         return {"kind": "pct", "prios": prios, "cp_fracs": sorted(rng.random() for _ in range(d - 1))}
     if r < 0.90:
         return {"kind": "walk", "seed": rng.getrandbits(32), "p": rng.choice([1 / 50, 1 / 500, 1 / 5000, 1 / 50000])}
     return {"kind": "rr", "q": rng.choice([1, 2, 7, 50, 500, 5000])}
+
+
+# the retort's lookup / creation / caching code (C12's anchors): preemption points are biased towards it
+HOT_FILES = frozenset({
+    "_internal/morphing/facade/retort.py", "_internal/conversion/facade/retort.py", "_internal/retort/searching_retort.py",
+    "_internal/retort/builtin_mediator.py", "_internal/retort/operating_retort.py", "_internal/retort/request_bus.py",
+    "_internal/retort/base_retort.py", "_internal/retort/routers.py", "_internal/code_tools/compiler.py",
+    "_internal/utils.py", "_internal/morphing/facade/func.py", "_internal/conversion/facade/func.py",
+})
 
 
 def gen(seed, cfg=None):
@@ -164,18 +178,23 @@ def refs_needed(scn):
     out = []
     for t, prog in enumerate(scn["threads"]):
         out.extend(d for d in ops.static_ref_descs([scn["handle"]], prog) if d is not None)
-        if scn["policy"]["kind"] in ("sweep1", "pct") and ("frac" in scn["policy"] or "cp_fracs" in scn["policy"]):
+        if _needs_solo(scn["policy"]):
             out.append(_solo_desc(scn, t))
     out.extend(ops.static_ref_descs([scn["handle"]], _post_ops(scn)))
     return out
 
 
+def _needs_solo(pol):
+    return pol["kind"] in ("sweep1", "pct") and any(k in pol for k in ("frac", "cp_fracs", "cp_hot"))
+
+
 def compute_ref(desc):
+    knobs.set_norm_cache(128)
     if desc["op"] == "solo":
         scn = {"handle": desc["handle"], "threads": [desc["program"]], "policy": {"kind": "solo"},
                "norm_cache": desc["norm_cache"]}
         res = execute(scn, None)
-        return res["steps"][0]
+        return {"steps": res["steps"][0], "hot": res["hot"].get(0, {})}
     return ops.compute_ref(desc)
 
 
@@ -225,15 +244,19 @@ def execute(scn, refs):  # noqa: C901, PLR0912, PLR0915
     knobs.set_norm_cache(scn.get("norm_cache", 128))
     main_world = ops.World([scn["handle"]])
     n = len(scn["threads"])
-    solo_steps = [1] * n
-    if refs is not None:
+    solo = [{"steps": 1, "hot": {}} for _ in range(n)]
+    if refs is not None and _needs_solo(scn["policy"]):
         for t in range(n):
-            solo_steps[t] = refs.get(canon(_solo_desc(scn, t)), 1)
-    policy = make_policy(scn["policy"], solo_steps)
+            solo[t] = refs.get(canon(_solo_desc(scn, t)), solo[t])
+    solo_steps = [s["steps"] for s in solo]
+    policy = make_policy(scn["policy"], solo)
     budget = 400_000 if refs is None else 3 * sum(max(s, 3000) for s in solo_steps) + 50_000
+    if refs is not None and not _needs_solo(scn["policy"]):
+        budget = 1_500_000
     if scn["policy"]["kind"] in ("walk", "rr", "replay") and refs is not None:
         budget = 1_500_000
     sched = Scheduler(policy, max_steps=budget, wall_timeout=90.0, keep_log=bool(scn.get("keep_log")))
+    sched.hot_files = HOT_FILES
     patcher.sched = sched
     results = [[] for _ in range(n)]
     worlds = [ops.World(None, share=main_world) for _ in range(n)]
@@ -284,6 +307,7 @@ def execute(scn, refs):  # noqa: C901, PLR0912, PLR0915
         "counter_ids": len(idx_seen),
     }
     if refs is None:
+        stats["hot"] = sched.hot
         return stats
     # oracle 5: ids handed out by the locked counter are pairwise distinct per base name
     seen = {}
